@@ -290,6 +290,59 @@ theorem copy_view (env : Env) (w : World) (i : Nat) (hi : i < w.models.length) :
   simp only [step, hi, if_true]
   exact copyModel_view i _ (List.getElem?_eq_getElem hi)
 
+/-! ## `gam.terms = e` / `set_params(terms=e)` -/
+
+/-- what the assignment does: the model gets **copies** of the expression's term objects — its view shows the
+expression's current term values, un-compiled — and keeps everything else: a fitted model keeps `coef_`,
+`statistics_`, `logs_` and its distribution.  (Its queries then read un-compiled term objects and raise until the
+next fit: `queryKey`.)  By `models_isolated` no other model changes, by `expressions_untouched` no expression does,
+and by `inv_preserved` the model shares nothing with the expression or with other models assigned the same expression. -/
+theorem assign_view (env : Env) {w : World} (h : Inv w) (i e : Nat) (m : Model) (ex : List Nat)
+    (hm : w.models[i]? = some m) (hx : w.exprs[e]? = some ex) :
+    (step env w (.assignTerms i e)).1.view i = some { w.viewOf m with terms := ex.map w.term }
+    ∧ ((step env w (.assignTerms i e)).1.view i).map (·.terms) = w.exprView e := by
+  have hi : i < w.models.length := (List.getElem?_eq_some_iff.mp hm).1
+  have he : e < w.exprs.length := (List.getElem?_eq_some_iff.mp hx).1
+  simp only [step, hi, he, and_self, if_true]
+  rw [assignTerms_view h i e m ex hm hx]
+  exact ⟨rfl, by simp [World.exprView, hx]⟩
+
+/-- **`fit` after `gam.terms = e` is history-free too**: the binding of `coef_` / `statistics_` is the one a brand-new
+model built from a brand-new expression with `e`'s settings gets — whatever other models were assigned `e`, had their
+hyper-parameters changed and were fitted on whatever data in between (none of that touches `e`: `expressions_untouched`) -/
+theorem assign_fit_history_free (env : Env) {w : World} (h : Inv w) (i e : Nat) (d : Data) (iters : Nat) (m : Model)
+    (ex : List Nat) (hm : w.models[i]? = some m) (hx : w.exprs[e]? = some ex) :
+    ((run env w [.assignTerms i e, .fit i d iters]).view i).map (·.fitted)
+      = some (some (Settings.fitIn env ⟨m.cls, m.mset, m.scaleKnown, (ex.map w.term).map TermObj.settings⟩ d)) := by
+  have hi : i < w.models.length := (List.getElem?_eq_some_iff.mp hm).1
+  have he : e < w.exprs.length := (List.getElem?_eq_some_iff.mp hx).1
+  have hr := assignTerms_rec w i e m ex hm hx
+  have h1 := (fit_history_free env (assignTerms w i e) i d iters _ hr).1
+  have hv := assignTerms_view h i e m ex hm hx
+  simp only [World.view, hr, Option.map_some, Option.some.injEq] at hv
+  simp only [run, List.foldl_cons, List.foldl_nil, step, hi, he, and_self, if_true] at h1 ⊢
+  rw [h1, hv]
+  simp [World.viewOf, ModelView.settings]
+
+/-- several models assigned **one** expression stay isolated: a plural `set_params` on one of them changes neither
+the other one nor the expression (the instance of `models_isolated` / `expressions_untouched` that fails when the
+assignment keeps a reference) -/
+theorem assigned_models_isolated (env : Env) {w : World} (h : Inv w) (i j e c : Nat) (hij : i ≠ j)
+    (hj : j < w.models.length) (he : e < w.exprs.length) :
+    let w2 := run env w [.assignTerms i e, .assignTerms j e]
+    (step env w2 (.setLam i c)).1.view j = w2.view j ∧ (step env w2 (.setLam i c)).1.exprView e = w2.exprView e
+    ∧ (step env w2 (.setOrder i c)).1.view j = w2.view j ∧ (step env w2 (.setOrder i c)).1.exprView e = w2.exprView e := by
+  intro w2
+  have hinv2 : Inv w2 := inv_run env _ h
+  have k1 := step_keeps env (.assignTerms i e) h
+  have k2 := step_keeps env (.assignTerms j e) k1.inv
+  have hj2 : j < w2.models.length := Nat.lt_of_lt_of_le (Nat.lt_of_lt_of_le hj k1.len) k2.len
+  have he2 : e < w2.exprs.length := Nat.lt_of_lt_of_le (Nat.lt_of_lt_of_le he k1.elen) k2.elen
+  exact ⟨models_isolated env hinv2 _ j hj2 (by simpa [Op.target] using hij),
+    (step_keeps env (.setLam i c) hinv2).expr e he2,
+    models_isolated env hinv2 _ j hj2 (by simpa [Op.target] using hij),
+    (step_keeps env (.setOrder i c) hinv2).expr e he2⟩
+
 /-! ## `gridsearch(keep_best=True)` -/
 
 /-- after `gridsearch(keep_best=True)` the model is, **by value**, the winner (entry `win` of the list `models` of
@@ -377,6 +430,26 @@ example : ((run env0 World.empty hist0).view 0).map (fun v => v.terms.map (fun t
       = some [(some 10, 6), (some 16, 3)]
     ∧ ((run env0 World.empty (hist0.take 5)).view 0).map (fun v => v.terms.map (fun t => (t.knots, t.set.nSplines)))
       = some [(some 0, 6), (some 6, 2)] := by
+  decide
+
+/-- a history with `gam.terms = e`: two models are assigned one expression, a hyper-parameter of the first is changed,
+and they are fitted on data sets with other knot ranges and numbers of categories -/
+def hist1 : List Op :=
+  [.mkExpr [⟨.spline, 0, 6, 3, 0, none⟩, ⟨.factor, 1, 0, 0, 0, none⟩], .mkExpr [⟨.linear, 0, 0, 0, 0, none⟩],
+   .construct .linear 0 false 1, .construct .linear 0 false 1, .fit 0 1 2, .assignTerms 0 0, .assignTerms 1 0,
+   .setLam 0 5, .query .predict 0 0, .fit 0 0 2, .fit 1 1 2, .query .predict 0 0]
+
+/-- after it each model has the knots / categories of its own data, only model 0 got the new `lam`, the expression's
+term objects were neither compiled nor changed; and the query between the assignment and the refit of the fitted
+model 0 raises (its new term objects are not compiled) while the one after the refit succeeds -/
+example :
+    let w := run env0 World.empty hist1
+    (w.view 0).map (fun v => v.terms.map (fun t => (t.knots, t.set.nSplines, t.set.lam))) = some [(some 0, 6, 5), (some 6, 2, 5)]
+    ∧ (w.view 1).map (fun v => v.terms.map (fun t => (t.knots, t.set.nSplines, t.set.lam))) = some [(some 10, 6, 0), (some 16, 3, 0)]
+    ∧ (w.exprView 0).map (fun ts => ts.map (fun t => (t.knots, t.set.lam))) = some [(none, 0), (none, 0)]
+    ∧ (step env0 (run env0 World.empty (hist1.take 8)) (.query .predict 0 0)).2 = .error
+    ∧ ((run env0 World.empty (hist1.take 8)).view 0).map (fun v => v.fitted.isSome) = some true
+    ∧ (step env0 (run env0 World.empty (hist1.take 11)) (.query .predict 0 0)).2 ≠ .error := by
   decide
 
 end PyGam.C15
